@@ -4,14 +4,19 @@ package router
 
 import (
 	"fmt"
+	"reflect"
 	"sort"
+	"strconv"
 	"strings"
 )
 
-// VerifDump renders the routing configuration held by a Router in canonical order
-// (injected accessor for C07: "routing configuration is not changed by planning").
-// The database recorded in the default rule is reported separately.
-func VerifDump(r *Router) (state string, defaultRuleDB string) {
+// VerifDump renders EVERYTHING reachable from a Router in canonical text form (injected
+// accessor for C07: "planning does not write to routing configuration"): all rules with the
+// CONTENTS of their slices and maps, the shard objects hanging off them and whatever those
+// point to (hash functions, bucket maps), following pointers, interfaces, maps and slices
+// including unexported fields. Pointer identity is rendered as "first visit / seen before",
+// never as an address. One line per rule, so that a difference can be named.
+func VerifDump(r *Router) string {
 	var keys []string
 	for db, m := range r.rules {
 		for t := range m {
@@ -22,36 +27,152 @@ func VerifDump(r *Router) (state string, defaultRuleDB string) {
 	var sb strings.Builder
 	for _, k := range keys {
 		p := strings.SplitN(k, "\x00", 2)
-		sb.WriteString(p[0] + "." + p[1] + "=" + verifRule(r.rules[p[0]][p[1]]) + "\n")
+		d := &verifDumper{seen: map[uintptr]int{}}
+		d.value(reflect.ValueOf(r.rules[p[0]][p[1]]), 0)
+		sb.WriteString(p[0] + "." + p[1] + " = " + d.sb.String() + "\n")
 	}
-	d := r.defaultRule.(*BaseRule)
-	cp := *d
-	cp.db = ""
-	sb.WriteString("default=" + verifBase(&cp))
-	return sb.String(), d.db
+	d := &verifDumper{seen: map[uintptr]int{}}
+	d.value(reflect.ValueOf(r.defaultRule), 0)
+	sb.WriteString("default = " + d.sb.String())
+	return sb.String()
 }
 
-func verifRule(r Rule) string {
-	switch x := r.(type) {
-	case *BaseRule:
-		return verifBase(x)
-	case *LinkedRule:
-		return fmt.Sprintf("linked{%s %s %s -> %s}", x.db, x.table, x.shardingColumn, verifBase(x.linkToRule))
-	}
-	return fmt.Sprintf("%T", r)
+type verifDumper struct {
+	sb   strings.Builder
+	seen map[uintptr]int
 }
 
-func verifBase(b *BaseRule) string {
-	var ts []string
-	for k, v := range b.tableToSlice {
-		ts = append(ts, fmt.Sprintf("%d:%d", k, v))
+func (d *verifDumper) value(v reflect.Value, depth int) {
+	if depth > 64 {
+		d.sb.WriteString("<deep>")
+		return
 	}
-	sort.Strings(ts)
-	var md []string
-	for k, v := range b.mycatDatabaseToTableIndexMap {
-		md = append(md, fmt.Sprintf("%s:%d", k, v))
+	switch v.Kind() {
+	case reflect.Invalid:
+		d.sb.WriteString("nil")
+	case reflect.Bool:
+		fmt.Fprintf(&d.sb, "%v", v.Bool())
+	case reflect.Int, reflect.Int8, reflect.Int16, reflect.Int32, reflect.Int64:
+		fmt.Fprintf(&d.sb, "%d", v.Int())
+	case reflect.Uint, reflect.Uint8, reflect.Uint16, reflect.Uint32, reflect.Uint64, reflect.Uintptr:
+		fmt.Fprintf(&d.sb, "%d", v.Uint())
+	case reflect.Float32, reflect.Float64:
+		fmt.Fprintf(&d.sb, "%g", v.Float())
+	case reflect.String:
+		fmt.Fprintf(&d.sb, "%q", v.String())
+	case reflect.Ptr:
+		if v.IsNil() {
+			d.sb.WriteString("nil")
+			return
+		}
+		if n, ok := d.seen[v.Pointer()]; ok {
+			fmt.Fprintf(&d.sb, "<ref %d>", n)
+			return
+		}
+		d.seen[v.Pointer()] = len(d.seen)
+		d.sb.WriteString("&")
+		d.value(v.Elem(), depth+1)
+	case reflect.Interface:
+		if v.IsNil() {
+			d.sb.WriteString("nil")
+			return
+		}
+		d.sb.WriteString(v.Elem().Type().String() + ":")
+		d.value(v.Elem(), depth+1)
+	case reflect.Struct:
+		d.sb.WriteString(v.Type().Name() + "{")
+		for i := 0; i < v.NumField(); i++ {
+			if i > 0 {
+				d.sb.WriteString(" ")
+			}
+			d.sb.WriteString(v.Type().Field(i).Name + ":")
+			d.value(v.Field(i), depth+1)
+		}
+		d.sb.WriteString("}")
+	case reflect.Slice:
+		if v.IsNil() {
+			d.sb.WriteString("nil[]")
+			return
+		}
+		// contents up to len; the spare capacity is rendered too (a scratch buffer that is
+		// resliced to [:0] still holds what the last user left in it)
+		fmt.Fprintf(&d.sb, "[len=%d:", v.Len())
+		full := v
+		if v.Cap() > v.Len() {
+			full = v.Slice(0, v.Cap())
+		}
+		if k := v.Type().Elem().Kind(); k == reflect.Int || k == reflect.Int32 || k == reflect.Int64 {
+			// fast path for the big integer tables (mycat segment arrays, rune buffers)
+			var buf []byte
+			for i := 0; i < full.Len(); i++ {
+				if i > 0 {
+					buf = append(buf, ',')
+				}
+				if i == v.Len() {
+					buf = append(buf, '|')
+				}
+				buf = strconv.AppendInt(buf, full.Index(i).Int(), 10)
+			}
+			d.sb.Write(buf)
+			d.sb.WriteString("]")
+			return
+		}
+		for i := 0; i < full.Len(); i++ {
+			if i > 0 {
+				d.sb.WriteString(",")
+			}
+			if i == v.Len() {
+				d.sb.WriteString("|")
+			}
+			d.value(full.Index(i), depth+1)
+		}
+		d.sb.WriteString("]")
+	case reflect.Array:
+		d.sb.WriteString("[")
+		for i := 0; i < v.Len(); i++ {
+			if i > 0 {
+				d.sb.WriteString(",")
+			}
+			d.value(v.Index(i), depth+1)
+		}
+		d.sb.WriteString("]")
+	case reflect.Map:
+		if v.IsNil() {
+			d.sb.WriteString("nil{}")
+			return
+		}
+		// keys first (scalars in practice), sorted; values are rendered in key order so that
+		// the numbering of shared pointers does not depend on map iteration order
+		type kv struct {
+			k string
+			v reflect.Value
+		}
+		var kvs []kv
+		it := v.MapRange()
+		for it.Next() {
+			kd := &verifDumper{seen: map[uintptr]int{}}
+			kd.value(it.Key(), depth+1)
+			kvs = append(kvs, kv{kd.sb.String(), it.Value()})
+		}
+		sort.Slice(kvs, func(i, j int) bool { return kvs[i].k < kvs[j].k })
+		d.sb.WriteString("map{")
+		for i, e := range kvs {
+			if i > 0 {
+				d.sb.WriteString(" ")
+			}
+			d.sb.WriteString(e.k + ":")
+			d.value(e.v, depth+1)
+		}
+		d.sb.WriteString("}")
+	case reflect.Func:
+		if v.IsNil() {
+			d.sb.WriteString("nilfunc")
+		} else {
+			d.sb.WriteString("func")
+		}
+	case reflect.Chan, reflect.UnsafePointer:
+		d.sb.WriteString(v.Kind().String())
+	default:
+		d.sb.WriteString("?" + v.Kind().String())
 	}
-	sort.Strings(md)
-	return fmt.Sprintf("base{%s %s %s %s slices=%v idx=%v t2s=%v shard=%T%+v mdb=%v mmap=%v}", b.db, b.table, b.shardingColumn,
-		b.ruleType, b.slices, b.subTableIndexes, ts, b.shard, b.shard, b.mycatDatabases, md)
 }
